@@ -37,6 +37,30 @@ static J gen_area(Chooser &ch)
   J feat = g::area_feature(ch, fr, none, type, g::gen_centre(ch, fr), 0, m);
   feat.erase("temperature models"); feat.erase("composition models");
   feat["min depth"] = m.dmin;
+  // 30%: top and bottom of the feature are tilted planes, written as one value per corner (samples of an affine function, so the
+  // local top / bottom at a point are known whatever triangulation interpolates them); corners with a zero coordinate are left
+  // alone (listed finding C11)
+  J affine = J::obj();
+  bool zero_corner = false;
+  for (auto &p : m.coords) if (p[0] == 0 || p[1] == 0) zero_corner = true;
+  if (!zero_corner && ch.chance(30))
+    {
+      double ext = 0;
+      for (auto &p : m.coords) ext = std::max(ext, std::max(std::fabs(p[0] - m.kernel[0]), std::fabs(p[1] - m.kernel[1])));
+      const double sp = m.dmax - m.dmin;
+      auto grad = [&](double room) { return ch.real(-1, 1) * 0.12 * room / ext; };
+      const double room_min = std::min(m.dmin, 0.5 * sp); // the top may not rise above the surface
+      affine["cx"] = m.kernel[0]; affine["cy"] = m.kernel[1];
+      affine["amin"] = grad(room_min); affine["bmin"] = grad(room_min); affine["amax"] = grad(sp); affine["bmax"] = grad(sp);
+      J smin = J::arr(), smax = J::arr();
+      smin.push(J::arr({J(m.dmin)})); smax.push(J::arr({J(m.dmax)}));
+      for (auto &p : m.coords)
+        {
+          smin.push(J::arr({J(m.dmin + affine["amin"].num() * (p[0] - m.kernel[0]) + affine["bmin"].num() * (p[1] - m.kernel[1])), J::arr({jp(p[0], p[1])})}));
+          smax.push(J::arr({J(m.dmax + affine["amax"].num() * (p[0] - m.kernel[0]) + affine["bmax"].num() * (p[1] - m.kernel[1])), J::arr({jp(p[0], p[1])})}));
+        }
+      feat["min depth"] = smin; feat["max depth"] = smax;
+    }
   std::vector<std::string> kinds = {"uniform", "adiabatic", "linear", "linear"};
   if (type == "continental plate") kinds.push_back("chapman");
   const std::string kind = ch.pick(kinds);
@@ -69,6 +93,7 @@ static J gen_area(Chooser &ch)
   J c = J::obj();
   c["world"] = root.dump();
   c["fmin"] = m.dmin; c["fmax"] = m.dmax;
+  if (affine.has("cx")) c["affine"] = affine;
   c["queries"] = g::gen_queries(ch, w, static_cast<int>(ch.range(5, 25)), 100);
   return c;
 }
@@ -83,7 +108,10 @@ static Result check_area(const J &c)
   const J &t = feat.at("temperature models")[0];
   const std::string kind = t.at("model").str(), type = feat.at("model").str();
   const std::string op = t.has("operation") ? t.at("operation").str() : "replace";
-  const double fmin = c.at("fmin").num(), fmax = c.at("fmax").num();
+  double fmin = c.at("fmin").num(), fmax = c.at("fmax").num();
+  const double fmin0 = fmin, fmax0 = fmax;
+  const bool tilted = c.has("affine");
+  if (tilted) r.classes.push_back("tilted top and bottom (one value per corner)");
   const double mmin = t.has("min depth") ? t.at("min depth").num() : 0.0, mmax = t.has("max depth") ? t.at("max depth").num() : std::numeric_limits<double>::max();
   r.classes.push_back(type + "/" + kind);
   for (const auto &q : c.at("queries").a)
@@ -91,6 +119,14 @@ static Result check_area(const J &c)
       const double depth = q.at("depth").num();
       const std::vector<double> out = W->properties(p3(q.at("p")), depth, {{{1, 0, 0}}, {{4, 0, 0}}});
       if (out[1] == -1) { r.classes.push_back("outside(skipped)"); continue; }
+      if (tilted)
+        {
+          const J &af = c.at("affine");
+          const double dx = q.at("nat")[0].num() - af.at("cx").num(), dy = q.at("nat")[1].num() - af.at("cy").num();
+          fmin = fmin0 + af.at("amin").num() * dx + af.at("bmin").num() * dy;
+          fmax = fmax0 + af.at("amax").num() * dx + af.at("bmax").num() * dy;
+          if (std::fabs(depth - fmin) < 1e-3 || std::fabs(depth - fmax) < 1e-3) continue;
+        }
       const double ambient = adiabat(G, depth);
       double want = ambient;
       const bool in_model = depth >= mmin && depth <= mmax;
@@ -131,7 +167,7 @@ static Result check_area(const J &c)
         }
       r.inner++; r.inner_nt += in_model; r.nontrivial = r.nontrivial || in_model;
       r.classes.push_back(branch);
-      if (!close_rel(out[0], want, 1e-10, 1e-9))
+      if (!close_rel(out[0], want, tilted ? 1e-8 : 1e-10, 1e-9))
         {
           std::string sig = type + "/" + kind;
           if (kind == "linear" && type == "continental plate" && std::max(fmin, mmin) > mmin) sig = "continental-linear-unclipped-top";
